@@ -357,6 +357,7 @@ func (sdb *DbSqlite) initRoot(rootID string) (string, error) {
 	if err != nil {
 		return "", fmt.Errorf("Error setting root node points: %v", err)
 	}
+	verifSite("init.rootNode")
 
 	err = sdb.edgePoints(rootNode.ID, "root", data.Points{
 		{Type: data.PointTypeTombstone, Value: 0},
@@ -365,6 +366,7 @@ func (sdb *DbSqlite) initRoot(rootID string) (string, error) {
 	if err != nil {
 		return "", fmt.Errorf("Error sending root node edges: %w", err)
 	}
+	verifSite("init.rootEdge")
 
 	// create admin user off root node
 	admin := data.User{
@@ -381,6 +383,7 @@ func (sdb *DbSqlite) initRoot(rootID string) (string, error) {
 	if err != nil {
 		return "", fmt.Errorf("Error setting default user: %v", err)
 	}
+	verifSite("init.adminNode")
 
 	err = sdb.edgePoints(admin.ID, rootNode.ID, data.Points{
 		{Type: data.PointTypeTombstone, Value: 0},
@@ -391,12 +394,16 @@ func (sdb *DbSqlite) initRoot(rootID string) (string, error) {
 		return "", err
 	}
 
+	verifSite("init.adminEdge")
+
 	sdb.writeLock.Lock()
 	defer sdb.writeLock.Unlock()
 	_, err = sdb.db.Exec("UPDATE meta SET root_id = ?", rootNode.ID)
 	if err != nil {
 		return "", fmt.Errorf("Error setting meta rootID: %v", err)
 	}
+
+	verifSite("init.rootID")
 
 	return rootNode.ID, nil
 }
@@ -407,6 +414,8 @@ func (sdb *DbSqlite) initJwtKey() error {
 	if err != nil {
 		return fmt.Errorf("Error reading making JWT key: %v", err)
 	}
+
+	verifSite("init.jwtBefore")
 
 	sdb.writeLock.Lock()
 	defer sdb.writeLock.Unlock()
@@ -441,6 +450,7 @@ func (sdb *DbSqlite) nodePoints(id string, points data.Points) error {
 	if err != nil {
 		return err
 	}
+	verifSite("np.begin")
 
 	rollback := func() {
 		rbErr := tx.Rollback()
@@ -563,17 +573,20 @@ NextPin:
 	}
 
 	stmt.Close()
+	verifSite("np.upserted")
 
 	err = sdb.updateHash(tx, id, hashUpdate)
 	if err != nil {
 		rollback()
 		return fmt.Errorf("Error updating upstream hash: %v", err)
 	}
+	verifSite("np.hashed")
 
 	err = tx.Commit()
 	if err != nil {
 		return err
 	}
+	verifSite("np.committed")
 
 	return nil
 }
@@ -616,6 +629,8 @@ func (sdb *DbSqlite) edgePoints(nodeID, parentID string, points data.Points) err
 			log.Println("Rollback error:", rbErr)
 		}
 	}
+
+	verifSite("ep.begin")
 
 	edges, err := sdb.edges(tx, "SELECT * FROM edges WHERE up=? AND down=?", parentID, nodeID)
 	if err != nil {
@@ -751,6 +766,7 @@ NextPin:
 	}
 
 	stmt.Close()
+	verifSite("ep.upserted")
 
 	// we don't update the hash here as it gets updated later in updateHash()
 	// SQLite is amazing as it appears the below INSERT can be read later in the read before
@@ -829,6 +845,8 @@ NextPin:
 			}
 		}
 
+		verifSite("ep.edgeInserted")
+
 		if parentID == "root" {
 			log.Println("inserting new root node, update root in meta")
 			_, err = tx.Exec("UPDATE meta SET root_id = ?", nodeID)
@@ -837,6 +855,7 @@ NextPin:
 				return fmt.Errorf("Error update root id in meta: %w", err)
 			}
 			sdb.meta.RootID = nodeID
+			verifSite("ep.rootSet")
 		}
 	}
 
@@ -859,11 +878,13 @@ NextPin:
 		rollback()
 		return fmt.Errorf("Error updating upstream hash: %v", err)
 	}
+	verifSite("ep.hashed")
 
 	err = tx.Commit()
 	if err != nil {
 		return err
 	}
+	verifSite("ep.committed")
 
 	return nil
 }
@@ -956,6 +977,7 @@ func (sdb *DbSqlite) writeHashCache(tx *sql.Tx, cache map[string]uint32) error {
 			stmt.Close()
 			return fmt.Errorf("Error updating edge hash: %v", err)
 		}
+		verifSite("hash.step")
 	}
 
 	stmt.Close()
